@@ -98,7 +98,23 @@ struct Bag
     void emplace_back(V&& v) { items.emplace_back(std::move(v)); }
 };
 
+// trivially destructible tracked value: eligible for the fixed-size stacks the library uses with cstring_buffer; copies and moves
+// are still observable (no destructor, so no liveness accounting)
+struct TD
+{
+    long id;
+    TD() : id(0) {}
+    struct raw {};
+    TD(raw, long i) : id(i) {}
+    TD(const TD& o) : id(o.id) { ++S.copies; S.ev += "C"; put(id); S.ev += ";"; }
+    TD(TD&& o) noexcept : id(o.id) { ++S.moves; if (o.id > 0) o.id = -o.id; }
+    TD& operator=(const TD& o) { if (this != &o) { id = o.id; ++S.copies; S.ev += "C"; put(id); S.ev += ";"; } return *this; }
+    TD& operator=(TD&& o) noexcept { if (this != &o) { id = o.id; ++S.moves; if (o.id > 0) o.id = -o.id; } return *this; }
+    ~TD() = default;
+};
+
 template<class T> struct is_tracked : std::false_type {};
+template<> struct is_tracked<TD> : std::true_type {};
 template<int Tag> struct is_tracked<TV<Tag>> : std::true_type {};
 template<> struct is_tracked<MV> : std::true_type {};
 
@@ -246,6 +262,28 @@ struct X
     }
 };
 
+// contextual functor on a nonterminal without a value
+template<int Rule>
+struct XN
+{
+    template<class C, class... A>
+    ctpg::no_type operator()(C&& ctx, A&&... a) const
+    {
+        using CT = std::remove_reference_t<C>;
+        S.ev += "x"; put(Rule); S.ev += "[";
+        const void* addr = static_cast<const void*>(&ctx);
+        if (!ctx_first_seen) ctx_first_seen = addr;
+        S.ev += (ctx_expected ? (addr == ctx_expected ? "=" : "!") : (addr == ctx_first_seen ? "~" : "!"));
+        S.ev += std::is_const_v<CT> ? "c" : "m";
+        S.ev += "#"; put(ctx.counter);
+        if constexpr (!std::is_const_v<CT>) ++ctx.counter;
+        S.ev += "](";
+        (describe(std::forward<A>(a)), ...);
+        S.ev += ")=N;";
+        return ctpg::no_type{};
+    }
+};
+
 // typed-term functor: logs "t<term>:<offset>:<len>=<id>;"
 template<int Term, class T = V>
 struct TT
@@ -256,6 +294,35 @@ struct TT
         T v = make_value<T>();
         S.ev += "="; put(value_id(v)); S.ev += ";";
         return v;
+    }
+};
+
+// typed-term functor with the term number as *state*: all terms using it have the same C++ type and differ only in the stored object
+template<class T = V>
+struct TTS
+{
+    int term;
+    constexpr explicit TTS(int t) : term(t) {}
+    T operator()(std::string_view sv) const
+    {
+        S.ev += "t"; put(term); S.ev += ":"; put(S.base ? long(sv.data() - S.base) : -1); S.ev += ":"; put(long(sv.size()));
+        T v = make_value<T>();
+        S.ev += "="; put(value_id(v)); S.ev += ";";
+        return v;
+    }
+};
+
+// rule functors for nonterminals without a value (nterm<no_type>): log the call, return no_type
+template<int Rule>
+struct RN
+{
+    template<class... A>
+    ctpg::no_type operator()(A&&... a) const
+    {
+        S.ev += "r"; put(Rule); S.ev += "(";
+        (describe(std::forward<A>(a)), ...);
+        S.ev += ")=N;";
+        return ctpg::no_type{};
     }
 };
 
